@@ -19,8 +19,12 @@ CLAIMED = {
          "Whole-FAB reads, side-coherent selectors and offsets, [v1 ++ v2] order, header count; produced vs dispatched modes; task keys per worker x generator; scan/seek access against scatter-map order; names/indices/min-max order; dominance of the structure validation; writer grammars."),
  "C11": ("E1 on the five knives (incl. recipe-result rank) + names/count/order rules + E2 + E4",
          "Header count = kept + new components on every path, rank agreement, [kept ++ new] order, min/max over the written array, no store through input views, names defined/counted/ordered like the data, offset-sorted scatter map, ordered pathos imap with serial twin, worker globals vs persistent pool, writer grammars."),
+ "C12": ("E2 non-interference rules over all pool call sites",
+         "Primitive ordering vs consumer kind, worker purity incl. parent-assigned globals vs persistent pools, no worker-count reads, lazy results fetched, serial twins, scatter maps in semantic normal form, level barriers: holds for every completion order because no rule depends on an order."),
  "C13": ("E3 path-class abstract interpretation + exception-flow rules",
          "All 38 write sinks classified (never inside an input), default outputs are normalised siblings, read-only tools reach no sink, no sink under a completing broad handler, lazy pool results fetched, CLI handlers exit non-zero."),
+ "C14": ("closure by induction: reader grammar = oracle, every writer accepted (E4), FAB templates (H-FAB), per-operation rule sets re-evaluated",
+         "Every writer's Header/Cell_H grammar matched against the reader-derived oracle with exact float formats; FAB header builder canonical and parsed identically; the complete rule sets of C05/C06/C11/C17 are re-evaluated under this property."),
  "C15": ("E1 scan invariant + pool/iterator protocol rules",
          "Whole-FAB advance 8*C*N per scan iteration, one append per header, np.unique over the level's file table, chained iterator protocol, ordered on-demand iterator."),
  "C17": ("E1 on the conversion worker (8 flag paths, ghost-trim extent algebra) + positional task roles + E4 + E5",
